@@ -460,7 +460,7 @@ def fortran_modules(p: Project) -> None:
     L = head(p, ['fortran'])
     L.append(f"gsrc = custom_target('gensrc', input: 'genpart.f90.in', output: 'genpart.f90', {COPY})")
     L.append("flib = static_library('flib', 'libmod.f90')")
-    L.append("exe = executable('fexe', 'main.f90', 'moda.f90', gsrc, link_with: flib)")
+    L.append("exe = executable('fexe', 'main.f90', 'moda.f90', 'selfuse.f90', gsrc, link_with: flib)")
     L.append("test('fexe', exe)")
     if legacy:
         # the module scanner of the older path cannot see generated sources (documented FIXME): the generated file
@@ -471,7 +471,12 @@ def fortran_modules(p: Project) -> None:
         p.files['genpart.f90.in'] = 'module genpart\n  implicit none\ncontains\n  integer function gen_value()\n    gen_value = 3\n  end function\nend module genpart\n'
         use_gen, decl_gen = '  use genpart\n', ''
     p.files['main.f90'] = ('program main\n  use moda\n  use libmod\n' + use_gen + '  implicit none\n' + decl_gen +
-                           '  if (a_value() + lib_value() + gen_value() /= 6) stop 1\nend program main\n')
+                           '  integer, external :: use_self\n'
+                           '  if (a_value() + lib_value() + gen_value() + use_self() /= 6) stop 1\nend program main\n')
+    # a file that defines a module AND uses it itself (the object must not be made to wait for its own module)
+    p.files['selfuse.f90'] = ('module selfmod\n  implicit none\ncontains\n  integer function self_value()\n    self_value = 0\n  end function\n'
+                              'end module selfmod\n\ninteger function use_self()\n  use selfmod\n  implicit none\n  use_self = self_value()\n'
+                              'end function use_self\n')
     p.files['moda.f90'] = 'module moda\n  implicit none\ncontains\n  integer function a_value()\n    a_value = 1\n  end function\nend module moda\n'
     p.files['libmod.f90'] = 'module libmod\n  implicit none\ncontains\n  integer function lib_value()\n    lib_value = 2\n  end function\nend module libmod\n'
     p.files['meson.build'] = '\n'.join(L) + '\n'
